@@ -217,8 +217,8 @@ def rule_r4(ctx: Ctx) -> None:
 
 
 def run(ctx: Ctx) -> None:
-    rule_r1_r2(ctx)
-    rule_r3(ctx)
-    rule_r4(ctx)
+    ctx.attempt(rule_r1_r2, ctx)
+    ctx.attempt(rule_r3, ctx)
+    ctx.attempt(rule_r4, ctx)
     ctx.assume("the lookup list handed to the builder is finite; equality of DSDLDefinition is by (full name, version)")
     ctx.undecided("equality of the nested type with a stand-alone read for all graphs and visiting orders (depends on run-time lookup contents)")
